@@ -710,6 +710,34 @@ func (m *mergeCtx) ps5Adoption() {
 				}
 			}
 			m.rep.Check(why == "", "PS5", fmt.Sprintf("rename-same-name#%d:%s", nR, core.FuncKey(a)), "a rewritten file is adopted under the id and suffix it was written with", m.p.InstrPos(in), why, true)
+			// (h) the move is decided by the existence of its SOURCE (restartability), never by the destination
+			gated := false
+			for _, gb := range a.Blocks {
+				iff, ok := gb.Instrs[len(gb.Instrs)-1].(*ssa.If)
+				if !ok {
+					continue
+				}
+				bo, ok := iff.Cond.(*ssa.BinOp)
+				if !ok || !core.IsNilConst(bo.Y) || (bo.Op != token.EQL && bo.Op != token.NEQ) {
+					continue
+				}
+				c, idx := extractOf(bo.X)
+				if c == nil || idx != 1 || !core.StaticCalleeIs(c.Common(), "os.Stat") || !sameOrigin(c.Common().Args[0], args[0]) {
+					continue
+				}
+				if edgeDominates(iff, bo.Op == token.EQL, b) {
+					gated = true
+				}
+				// "if stat fails { if IsNotExist continue; return err }; rename": rename after the failure branch left
+				fail := gb.Succs[0]
+				if bo.Op == token.EQL {
+					fail = gb.Succs[1]
+				}
+				if !gated && gb.Dominates(b) && !(fail == b || fail.Dominates(b)) && !reachBlockAvoid(fail, b, gb) {
+					gated = true
+				}
+			}
+			m.rep.Check(gated, "PS5", fmt.Sprintf("rename-gated-by-source#%d:%s", nR, core.FuncKey(a)), "a file is moved exactly when its source still exists in the merge directory", m.p.InstrPos(in), "the rename is not under a successful os.Stat of its source: deciding by the destination keeps a stale file (e.g. the hint of an earlier merge) and the new one is deleted with the merge directory", true)
 		}
 	}
 }
@@ -882,4 +910,23 @@ func (m *mergeCtx) ps8Merge() {
 		},
 		degrade: degrade,
 	})
+}
+
+// reachBlockAvoid: can `to` be reached from `from` without passing through `avoid` (the loop header / test block)?
+func reachBlockAvoid(from, to, avoid *ssa.BasicBlock) bool {
+	seen := map[*ssa.BasicBlock]bool{}
+	work := []*ssa.BasicBlock{from}
+	for len(work) > 0 {
+		x := work[len(work)-1]
+		work = work[:len(work)-1]
+		if x == to {
+			return true
+		}
+		if seen[x] || x == avoid {
+			continue
+		}
+		seen[x] = true
+		work = append(work, x.Succs...)
+	}
+	return false
 }
